@@ -52,15 +52,20 @@ func (n *Node) Confirm(b *pb.InternalBlock) ledger.ConfirmStatus {
 	return n.Ledger.ConfirmBlock(CloneBlock(b), false)
 }
 
-// Walk calls State.Walk and tracks the asynchronous pool recovery it starts.
+// Walk calls State.Walk and waits for the asynchronous pool recovery it starts.
 func (n *Node) Walk(target []byte, prune bool) error {
-	before := n.Log.recoverDone()
-	announcedBefore := n.Log.recoverAnnounced()
-	err := n.State.Walk(target, prune)
-	if err == nil || n.Log.recoverAnnounced() > announcedBefore {
-		// a failed walk that gives the pool back announces it (synchronously, inside Walk) with
-		// the message below and then starts the same recovery goroutine
-		n.Log.waitRecover(before + 1)
+	return n.withRecovery(func() error { return n.State.Walk(target, prune) })
+}
+
+// withRecovery runs f (which may call State.Walk any number of times) and then waits for every
+// pool recovery goroutine those walks started. A walk announces the goroutine synchronously,
+// before it returns: "utxo walk finish" on success, "walk failed, recover unconfirm tx" on a
+// failure that gives the pool back.
+func (n *Node) withRecovery(f func() error) error {
+	done, started := n.Log.recoverDone(), n.Log.recoverStarted()
+	err := f()
+	if d := n.Log.recoverStarted() - started; d > 0 {
+		n.Log.waitRecover(done + d)
 	}
 	return err
 }
@@ -74,8 +79,10 @@ func (n *Node) WaitQuiescent() {}
 
 const recoverDoneMsg = "recover unconfirm tx done"
 const recoverAnnouncedMsg = "walk failed, recover unconfirm tx"
+const walkFinishMsg = "utxo walk finish"
 
-func (l *CapLogger) recoverAnnounced() int {
+// recoverStarted counts the recovery goroutines walks have started so far.
+func (l *CapLogger) recoverStarted() int {
 	l.mu.Lock()
 	defer l.mu.Unlock()
 	return l.recAnnounced
@@ -93,7 +100,7 @@ func (l *CapLogger) noteInfo(msg string) {
 		l.recDone++
 		l.mu.Unlock()
 	}
-	if msg == recoverAnnouncedMsg {
+	if msg == recoverAnnouncedMsg || msg == walkFinishMsg {
 		l.mu.Lock()
 		l.recAnnounced++
 		l.mu.Unlock()
